@@ -862,6 +862,17 @@ def r5(chk, repo):
         chk.ob(rule, q, "send_queue filled only by roundtrip",
                q == ETH + "EtherCat.roundtrip", c,
                "requests enter the queue in submission order at one place")
+    # the table of frames in flight holds their futures itself
+    ini = repo.func(ETH + "EtherCat.__init__")
+    wf = assigned_values(ini, "self.wait_futures")
+    ok = len(wf) == 1 and (match("{}", wf[0][1]) is not None or match(
+        "dict()", wf[0][1]) is not None)
+    chk.ob("R12.4", ETH + "EtherCat.__init__", "wait_futures is a plain "
+           "dict", ok, wf[0][0] if wf else ini, "the table is what keeps a "
+           "frame's future (and the task distributing its response) alive "
+           "until the response arrives; a weak or bounded mapping drops "
+           "frames in flight, and every request in them never completes"
+           if not ok else "{}")
     # FIFO: a plain asyncio Queue
     con = repo.func(ETH + "EtherCat.connect")
     mk = assigned_values(con, "self.send_queue")
